@@ -27,6 +27,14 @@ STREAMS = ('factors', 'steps')
 def gen_cfgs(ctx, n):
     rng = ctx.rng
     cfgs = []
+    # directed: micro-batches dropped with reset_batch() while pending (deferred updates / mid-window) leave no trace in M
+    for hook, accum in ((False, 1), (False, 2), (True, 2)):
+        cfg = kfacsim.Config(rng, world=rng.choice([1, 2]), hook=hook, accum=accum)
+        cfg.cap_mb = 0.0
+        cfg.hyper['factor_update_steps'] = 1
+        it = ['f1'] * accum + ['s']
+        cfg.ops = it + ['v1'] + ['f1'] * rng.randrange(1, accum + 1) + ['r'] + it + ['v1'] + it + ['v1']
+        cfgs.append(cfg)
     while len(cfgs) < n:
         cfg = kfacsim.Config(rng, world=rng.choice([1, 1, 2, 3, 4, 5, 8]))
         cfg.hyper['factor_decay'] = rng.choice([Fraction(1, 2), Fraction(3, 4), Fraction(15, 16), Fraction(1),
@@ -142,6 +150,39 @@ def dtype_stream(ctx):
                 ctx.fail(f'run with factor_dtype={fd} raised {type(e).__name__}: {e}', case, 'factor-dtype-raised')
             ctx.evaluations += 1
             ctx.count('dtype-stream')
+
+
+def amp_stream(ctx):
+    """the mixed-precision case loss scaling exists for: a half-precision model whose (scaled) output gradients are float16,
+    factors kept in float32: G is the second moment of g/scale computed in the FACTOR dtype (small true gradients that
+    would underflow in float16 survive)"""
+    from kfac.preconditioner import KFACPreconditioner
+    rng = ctx.rng
+    for _ in range(ctx.budget(6, 40)):
+        scale = float(2 ** rng.choice([12, 14, 16]))
+        torch.manual_seed(rng.randrange(10**6))
+        m = torch.nn.Sequential(torch.nn.Linear(4, 3)).half()
+        case = {'loss_scale': scale, 'model_dtype': 'float16', 'factor_dtype': 'float32'}
+        seen = {}
+        m[0].register_full_backward_hook(lambda mod, gi, go: seen.__setitem__('g', go[0].detach().clone()))
+        try:
+            p = KFACPreconditioner(m, grad_scaler=lambda: scale, factor_dtype=torch.float32, factor_decay=0.5, kl_clip=None)
+            x = (torch.randn(8, 4) * 0.5).half()
+            # true gradients of magnitude ~1e-5: representable in float16 only after scaling
+            (m(x).float().mean() * 2e-4 * scale).backward()
+            p.step()
+            G = p.state_dict()['layers']['0']['G']
+            g = seen['g'].to(torch.float32) / scale
+            want = 0.5 * torch.eye(3) + 0.5 * (g.t() @ g / g.shape[0])
+            off = (G.float() - 0.5 * torch.eye(3)) - (want - 0.5 * torch.eye(3))
+            ref = (want - 0.5 * torch.eye(3)).abs().max().item()
+            if G.dtype != torch.float32 or not torch.isfinite(G).all() or off.abs().max().item() > 1e-3 * max(ref, 1e-30):
+                ctx.fail(f'G factor of a float16 model with loss scale {scale:g} and float32 factors is not the second moment of '
+                         f'g/scale taken in float32 (batch part off by {off.abs().max().item() / max(ref, 1e-30):.2e} relative)', case, 'amp-factor')
+        except Exception as e:  # noqa: BLE001
+            ctx.fail(f'AMP factor run raised {type(e).__name__}: {e}', case, 'amp-raised')
+        ctx.evaluations += 1
+        ctx.count('amp-stream')
 
 
 def nd_stream(ctx):
@@ -280,6 +321,7 @@ def run(ctx):
     scaler_stream(ctx)
     half_stream(ctx)
     nd_stream(ctx)
+    amp_stream(ctx)
 
 
 def search(ctx):
